@@ -3,8 +3,9 @@ of recorded backend operations) + the Go-side prefix-state oracle (B4)."""
 import json, os, re
 import verif
 
-ALL_INV = ["SnapshotData", "SnapshotIndexed", "IndexSound", "KeyAlive", "ContentAddressed", "NonceFresh",
-           "NoLeak", "PackUnmixed", "Readable", "ReadOnlyRespected", "NoLockRespected", "ForgetMatchesReport", "NoWaste"]
+ALL_INV = ["T_SnapshotData", "T_SnapshotIndexed", "T_IndexSound", "KeyAlive", "ContentAddressed", "NonceFresh",
+           "NoLeak", "PackUnmixed", "Readable", "ReadOnlyRespected", "NoLockRespected", "ForgetMatchesReport", "NoWaste",
+           "PruneStatsOK"]
 ALL_RULES = ["R_PackBeforeIndex", "R_IndexBeforeSnapshot", "R_IndexGoneBeforePackDelete",
              "R_IndexDeleteKeepsNeeded", "R_LastKeyKept", "R_ConfigWriteOnce", "R_SnapshotNotLost", "R_OriginalKept"]
 
